@@ -503,10 +503,12 @@ func (in *inst) onStart(ctx *resolve.Context, h http.Header, input []byte, up re
 		return errors.New("upstream start failed")
 	}
 	// like graphql_datasource: Done is called when the trigger context ends
-	context.AfterFunc(st.ctx, func() {
-		in.point(fmt.Sprintf("src%d:ctx-done", n))
-		in.srcCall(st, Step{Op: "Dctx"})
-	})
+	if !in.sc.SourceIgnoresCtx {
+		context.AfterFunc(st.ctx, func() {
+			in.point(fmt.Sprintf("src%d:ctx-done", n))
+			in.srcCall(st, Step{Op: "Dctx"})
+		})
+	}
 	if len(prog) == 0 {
 		in.mu.Lock()
 		st.progDone = true
@@ -536,7 +538,7 @@ func (in *inst) runProgram(st *startRec, prog []Step) {
 	}()
 	for _, step := range prog {
 		in.point(fmt.Sprintf("src%d:%s", st.n, step.label()))
-		if st.ctx.Err() != nil || in.isAborted() {
+		if (st.ctx.Err() != nil && !in.sc.SourceIgnoresCtx) || in.isAborted() {
 			return // the upstream connection is gone; Done comes from the context callback
 		}
 		in.srcCall(st, step)
@@ -553,6 +555,16 @@ func (in *inst) isAborted() bool {
 func (in *inst) srcCall(st *startRec, step Step) {
 	in.mu.Lock()
 	in.observeL()
+	// the context of an upstream is cancelled only when its trigger has no subscriber left
+	if st.ctx.Err() != nil && st.err == "" && in.shutdownAt == 0 {
+		for _, v := range in.r.VerifSubscriptions() {
+			if v.Updater == st.up {
+				in.early = append(in.early, Finding{Prop: "C13", Clause: clSpurious, Site: "Start context cancelled while subscribers remain", Class: in.class(),
+					Detail: fmt.Sprintf("the context of Start #%d (%s) is cancelled (seen before the upstream's %s) although its trigger still has registered subscribers", st.n, st.key, step.label())})
+				break
+			}
+		}
+	}
 	op := opRec{op: step.Op, target: step.Sub, call: in.tickL()}
 	idx := len(st.ops)
 	st.ops = append(st.ops, op)
